@@ -89,7 +89,7 @@ def main():
     SEED[0] = a.seed
     mutants = []
     import re
-    for d in sorted(glob.glob(os.path.join(HERE, "seeded", "[CFPQR][0-9][0-9]-*"))):
+    for d in sorted(glob.glob(os.path.join(HERE, "seeded", "[CFPQRT][0-9][0-9]-*"))):
         name = os.path.basename(d)
         if name.startswith("C"):
             checks = [name[:3]] + EXTRA_CHECKS.get(name, [])
@@ -144,7 +144,18 @@ def main():
         finally:
             shutil.rmtree(scratch, ignore_errors=True)
         json.dump(results, open(res_path, "w"), indent=1, sort_keys=True)
-    missed = [n for n, r in results.items() if r.get("applied") and not r.get("caught_by")]
+    def scope(n):
+        try:
+            return json.load(open(os.path.join(HERE, "seeded", n, "meta.json"))).get("not_decided")
+        except Exception:  # noqa: BLE001
+            return None
+
+    outside = [n for n, r in results.items() if r.get("applied") and not r.get("caught_by") and scope(n)]
+    for n in outside:
+        results[n]["not_decided"] = scope(n)
+    json.dump(results, open(res_path, "w"), indent=1, sort_keys=True)
+    print(f"not decided (outside the properties' quantifier, reason in seeded/<id>/meta.json): {outside}")
+    missed = [n for n, r in results.items() if r.get("applied") and not r.get("caught_by") and not scope(n)]
     print(f"mutants: {len(results)}, caught: {sum(1 for r in results.values() if r.get('caught_by'))}, missed: {missed}, not applicable to current tree: "
           f"{[n for n, r in results.items() if not r.get('applied')]}")
     return 0
